@@ -1,8 +1,208 @@
-/- Model driver for C19 (stub: no ops yet). -/
+/-
+  Model driver for C19 (sql.py).  Line protocol: see DrvCore.  Imports only Mathlib-free files.
+
+  Strings travel as single tokens: `^` is the empty string, `~` stands for a blank.
+  A database is written as   D <n> (idx group key name freq units)*  T <n> (idx year month day
+  interval itype env)*  R <n> (timeIndex dictIndex value)*   with integer values (distinct ids).
+-/
 import Ladybug.DrvCore
+import Ladybug.Model.Sql
+
+open Drv Sql
 
 namespace DrvC19
-def handle (_toks : List String) : String := "bad-op"
+
+def dec (s : String) : String := if s = "^" then "" else s.replace "~" " "
+def enc (s : String) : String := if s = "" then "^" else s.replace " " "~"
+
+def showErr : Err → String
+  | .value => "err:value"
+  | .index => "err:index"
+  | .type => "err:type"
+  | .attr => "err:attr"
+  | .assert => "err:assert"
+  | .zero => "err:zero"
+  | .sqlError => "err:other:Exception"
+  | .unmodelled => "unmodelled"
+
+def showVals (l : List Rat) : String := joinSp (l.map fun v => "v" ++ showRat v)
+
+def showCols (r : Except Err (List (List Rat))) : String :=
+  match r with
+  | .error e => showErr e
+  | .ok cols => joinSp ("ok" :: cols.map fun c => "| " ++ toString c.length ++ " " ++ showVals c)
+
+def showDType : DType → String
+  | .base n => "base " ++ enc n
+  | .generic n => "generic " ++ enc n
+
+def showPeriod (p : Period) : String :=
+  s!"{p.stMonth} {p.stDay} {p.stHour} {p.endMonth} {p.endDay} {p.endHour} {p.timestep} {showBool p.leap}"
+
+def showKind : Kind → String
+  | .hourly => "HourlyContinuous"
+  | .daily => "Daily"
+  | .monthly => "Monthly"
+
+def showColl (c : Coll Rat) : String :=
+  joinSp ["C", showKind c.kind, showDType c.dtype, enc c.unit, "P", showPeriod c.period,
+    "M", enc c.metaType, enc c.objType, enc c.key,
+    "V", toString c.values.length, showVals c.values,
+    "T", toString c.datetimes.length, showNats c.datetimes]
+
+def showResult (r : Except Err (Result Rat)) : String :=
+  match r with
+  | .error e => showErr e
+  | .ok (.colls cs) => joinSp ("ok colls" :: toString cs.length :: cs.map showColl)
+  | .ok (.annual vs) => joinSp ["ok annual", toString vs.length, showVals vs]
+
+/-- Take `k` tokens (tail recursive). -/
+def takeToks (k : Nat) (ts : List String) : Option (Array String × List String) :=
+  let rec go (k : Nat) (ts : List String) (acc : Array String) : Option (Array String × List String) :=
+    match k, ts with
+    | 0, ts => some (acc, ts)
+    | k + 1, t :: ts => go k ts (acc.push t)
+    | _ + 1, [] => none
+  go k ts #[]
+
+def parseDictRows (a : Array String) : Option (List DictRow) :=
+  (List.range (a.size / 6)).mapM fun i => do
+    let idx ← (a[6 * i]?).bind String.toNat?
+    let g ← a[6 * i + 1]?
+    let k ← a[6 * i + 2]?
+    let nm ← a[6 * i + 3]?
+    let f ← a[6 * i + 4]?
+    let u ← a[6 * i + 5]?
+    pure ⟨idx, dec g, dec k, dec nm, dec f, dec u⟩
+
+def parseTimeRows (a : Array String) : Option (List TimeRow) :=
+  (List.range (a.size / 7)).mapM fun i => do
+    let idx ← (a[7 * i]?).bind String.toNat?
+    let y ← (a[7 * i + 1]?).bind String.toNat?
+    let m ← (a[7 * i + 2]?).bind String.toNat?
+    let d ← (a[7 * i + 3]?).bind String.toNat?
+    let iv ← (a[7 * i + 4]?).bind String.toNat?
+    let it ← (a[7 * i + 5]?).bind String.toInt?
+    let e ← (a[7 * i + 6]?).bind String.toNat?
+    pure ⟨idx, y, m, d, iv, it, e⟩
+
+def parseDataRows (a : Array String) : Option (List (DataRow Rat)) :=
+  (List.range (a.size / 3)).mapM fun i => do
+    let t ← (a[3 * i]?).bind String.toNat?
+    let d ← (a[3 * i + 1]?).bind String.toNat?
+    let v ← (a[3 * i + 2]?).bind String.toInt?
+    pure ⟨t, d, (v : Rat)⟩
+
+/-- Parse `D n … T n … R n …`. -/
+def parseDB (ts : List String) : Option (DB Rat) :=
+  match ts with
+  | "D" :: n :: ts => do
+    let n ← n.toNat?
+    let (da, ts) ← takeToks (6 * n) ts
+    match ts with
+    | "T" :: m :: ts => do
+      let m ← m.toNat?
+      let (ta, ts) ← takeToks (7 * m) ts
+      match ts with
+      | "R" :: k :: ts => do
+        let k ← k.toNat?
+        let (ra, ts) ← takeToks (3 * k) ts
+        if !ts.isEmpty then none else
+        let d ← parseDictRows da
+        let t ← parseTimeRows ta
+        let r ← parseDataRows ra
+        pure ⟨d, t, r⟩
+      | _ => none
+    | _ => none
+  | _ => none
+
+/-- Parse `<s|l> <count> names…` and return the rest. -/
+def parseQuery (ts : List String) : Option (NameQuery × List String) :=
+  match ts with
+  | "s" :: n :: rest => some (.single (dec n), rest)
+  | "l" :: k :: rest => do
+    let k ← k.toNat?
+    let (ns, rest) ← takeToks k rest
+    pure (.many (ns.toList.map dec), rest)
+  | _ => none
+
+def ratsOf (ts : List String) : Option (List Rat) := ts.mapM fun t => (fun (i : Int) => (i : Rat)) <$> t.toInt?
+
+def handle (toks : List String) : String :=
+  match toks with
+  | "part" :: n :: vals =>
+    match n.toNat?, ratsOf vals with
+    | some n, some vs => showCols (partition vs n)
+    | _, _ => "bad-op"
+  | "partconv" :: n :: vals =>
+    match n.toNat?, ratsOf vals with
+    | some n, some vs => showCols (partition (vs.map jToKWh) n)
+    | _, _ => "bad-op"
+  | "partc" :: m :: rest =>
+    match m.toNat? with
+    | some m =>
+      match takeToks m rest with
+      | some (cs, vals) =>
+        match nats cs.toList, ratsOf vals with
+        | some cs, some vs => showCols (partitionChunks vs cs)
+        | _, _ => "bad-op"
+      | none => "bad-op"
+    | none => "bad-op"
+  | "partcconv" :: m :: rest =>
+    match m.toNat? with
+    | some m =>
+      match takeToks m rest with
+      | some (cs, vals) =>
+        match nats cs.toList, ratsOf vals with
+        | some cs, some vs => showCols (partitionChunks (vs.map jToKWh) cs)
+        | _, _ => "bad-op"
+      | none => "bad-op"
+    | none => "bad-op"
+  | "accum" :: cs =>
+    match nats cs with
+    | some cs => "ok " ++ showNats (accumulate cs)
+    | none => "bad-op"
+  | ["dtype", unit, name] =>
+    let r := dataTypeFromUnit (dec unit) (dec name)
+    "ok " ++ showDType r.1 ++ " " ++ enc r.2
+  | ["period", y1, m1, d1, iv, it, e1, y2, m2, d2, e2] =>
+    match y1.toNat?, m1.toNat?, d1.toNat?, iv.toNat?, it.toInt?, e1.toNat?, y2.toNat?, m2.toNat?,
+        d2.toNat?, e2.toNat? with
+    | some y1, some m1, some d1, some iv, some it, some e1, some y2, some m2, some d2, some e2 =>
+      match extractRunPeriodRows (some ⟨1, y1, m1, d1, iv, it, e1⟩) (some ⟨2, y2, m2, d2, iv, it, e2⟩) with
+      | .error e => showErr e
+      | .ok (p, f, mult) =>
+        let fs := match f with
+          | .steps n => toString n
+          | .daily => "Daily"
+          | .monthly => "Monthly"
+          | .annual => "Annual"
+        let ps := match p with
+          | none => "none"
+          | some p => showPeriod p ++ " len " ++ toString p.len ++ " doys " ++ toString p.doys.length
+              ++ " months " ++ toString p.months.length
+        "ok " ++ fs ++ " " ++ showBool mult ++ " " ++ ps
+    | _, _, _, _, _, _, _, _, _, _ => "bad-op"
+  | "qall" :: rest =>
+    match parseQuery rest with
+    | some (q, rest) =>
+      match parseDB rest with
+      | some db => showResult (queryAll jToKWh db q)
+      | none => "bad-op"
+    | none => "bad-op"
+  | "vals" :: rest =>
+    match parseQuery rest with
+    | some (q, rest) =>
+      match parseDB rest with
+      | some db => joinSp ["ok", showVals (valuesByName db q)]
+      | none => "bad-op"
+    | none => "bad-op"
+  | "qrp" :: name :: env :: rest =>
+    match env.toNat?, parseDB rest with
+    | some env, some db => showResult (queryRunPeriod jToKWh db (dec name) env)
+    | _, _ => "bad-op"
+  | _ => "bad-op"
+
 end DrvC19
 
 def main : IO Unit := Drv.run DrvC19.handle
